@@ -121,7 +121,7 @@ class Writer:
         if q == "'''" and note and s and self.k['note_decor'] == 'random' and self.rng.random() < 0.6:
             pad = ' ' * self.rng.choice([2, 4, 7])
             lines = body.split('\n')
-            lines = [(pad + ln) if ln != '' else ln for ln in lines]
+            lines = [(pad + ln) if ln != '' else (' ' * self.rng.randrange(len(pad)) if self.rng.random() < 0.4 else ln) for ln in lines]
             head = '\n' * self.rng.randint(1, 2)
             tail = '\n' + ' ' * self.rng.randint(0, 4)
             body = head + '\n'.join(lines) + tail
